@@ -72,6 +72,8 @@ type Scenario struct {
 	// older than that when it is taken again, the client announces "Connection: close" on it and must retire it
 	// afterwards whatever the peer answers (the peer does not echo the option and keeps the connection open)
 	MaxConnDur bool `json:"max_conn_duration,omitempty"`
+	// Closer: one more thread calls HostClient.CloseIdleConnections() once, at any moment of the run
+	Closer bool `json:"closer,omitempty"`
 }
 
 func (sc Scenario) reqTO() time.Duration {
@@ -491,6 +493,13 @@ func (w *World) Body() func() {
 				wg.Done()
 			})
 		}
+		if job.Sc.Closer {
+			wg.Add(1)
+			verifrt.Go("closer", func() {
+				defer wg.Done()
+				hc.CloseIdleConnections()
+			})
+		}
 		wg.Wait()
 		verifrt.Settle() // background goroutines of the client (re-dial for a waiter) run to completion
 		w.quiescence()
@@ -530,6 +539,9 @@ func (w *World) OnPoint() {
 }
 
 func underlying(nc network.Conn) *sconn {
+	if nc == nil {
+		return nil
+	}
 	if u, ok := standard.UnderlyingForVerif(nc).(*sconn); ok {
 		return u
 	}
@@ -546,6 +558,24 @@ func (w *World) quiescence() {
 	}
 	if open != s.Idle {
 		w.violate("after all calls returned %d connections are open but %d are idle in the pool (leaked connection)", open, s.Idle)
+	}
+	// the idle entries are exactly the open connections: no entry without a live connection, no open connection outside
+	inPool := map[*sconn]bool{}
+	if len(s.IdleConns) != s.Idle {
+		w.violate("after all calls returned the idle pool has %d entries, %d of them nil", s.Idle, s.Idle-len(s.IdleConns))
+	}
+	for _, nc := range s.IdleConns {
+		sc := underlying(nc)
+		if sc == nil {
+			w.violate("after all calls returned the idle pool holds an entry that has no connection (it was closed and recycled while pooled)")
+			continue
+		}
+		inPool[sc] = true
+	}
+	for _, c := range w.conns {
+		if !c.closed && !inPool[c] {
+			w.violate("after all calls returned connection %d is open but is not in the idle pool: nobody owns it", c.id)
+		}
 	}
 	if s.ConnsCount != s.Idle {
 		w.violate("after all calls returned connsCount=%d but %d connections are idle in the pool", s.ConnsCount, s.Idle)
@@ -582,7 +612,7 @@ func (w *World) quiescence() {
 // RunOne executes the job under one schedule and returns the violations found.
 func RunOne(job Job, schedule []int, log bool) (*verifrt.Result, []string) {
 	w := NewWorld(job)
-	r := verifrt.RunWith(schedule, verifrt.Options{MaxTimeAdvances: 12, Log: log}, w.Body(), w.OnPoint)
+	r := verifrt.RunWith(schedule, verifrt.Options{MaxTimeAdvances: 12, Log: log, UnlockPoints: job.Sc.Closer}, w.Body(), w.OnPoint)
 	return r, w.Violations(r)
 }
 
